@@ -5,7 +5,9 @@ cd $wt || exit 1
 echo "--- tests with the change:"; /venv/bin/python -m pytest -q -p no:cacheprovider --continue-on-collection-errors tests 2>&1 | tail -1
 if [ -f _seed/demo.py ]; then
   echo "--- demo.py WITH change:"; /venv/bin/python _seed/demo.py 2>&1 | tail -2
-  git stash -q; echo "--- demo.py WITHOUT change:"; /venv/bin/python _seed/demo.py 2>&1 | tail -2; git stash pop -q
+  git diff -- hidc > /root/scratch/import_seed.$$.diff; git apply -R /root/scratch/import_seed.$$.diff
+  echo "--- demo.py WITHOUT change:"; /venv/bin/python _seed/demo.py 2>&1 | tail -2
+  git apply /root/scratch/import_seed.$$.diff; rm -f /root/scratch/import_seed.$$.diff
 fi
 mkdir -p /verif/seeded/$name; cp -r _seed/* /verif/seeded/$name/ 2>/dev/null
 git diff -- hidc > /verif/seeded/$name/patch.diff
